@@ -16,6 +16,13 @@ ROOT = os.path.dirname(os.path.dirname(os.path.abspath(__file__)))
 KNOWN_FILE = os.path.join(ROOT, 'known_findings.json')
 
 
+
+def _printable(text):
+    """Messages quote generated inputs verbatim (lone surrogates included):
+    make them safe for any stdout encoding."""
+    return text.encode('ascii', 'backslashreplace').decode('ascii')
+
+
 def case_hash(case):
     return hashlib.sha1(json.dumps(case, sort_keys=True,
                                    default=repr).encode()).hexdigest()[:16]
@@ -292,7 +299,7 @@ def run_check(modname, tier, seed, jobs=None):
                        "tier": tier, "seed": seed}, f, indent=1,
                       default=repr)     # (key order is part of some cases)
         print("VIOLATION property=%s replay=%s" % (prop, rp))
-        print("  # %s: %s" % (sig, v["message"]))
+        print(_printable("  # %s: %s" % (sig, v["message"])))
         status = 1
 
     floors = getattr(mod, 'check_floors', None)
@@ -341,7 +348,8 @@ def run_replay(modname, path):
                                                     v["message"]))
         else:
             print("VIOLATION property=%s replay=%s" % (mod.PROPERTY, path))
-            print("  # %s: %s" % (v["signature"], v["message"]))
+            print(_printable("  # %s: %s" % (v["signature"],
+                                             v["message"])))
             st = 1
     if not viols:
         print("replay: no violation")
